@@ -17,6 +17,7 @@ func c20Cong[V univers.Version[V], VR univers.VersionRange[V]](e univers.Ecosyst
 	vv.Reached()
 	vv.Assume(!c01AlpmMixedPkgrel(e.Name(), a, b, b))
 	vv.Assume(!vv.Known("KF-C01-alpm-direct-suffix-heuristic", alpmGlued(e.Name(), r, a, b)))
+	vv.Assume(!vv.Known("KF-C20-composer-caret-tilde-stability", composerShorthand(e.Name(), r) && (hasQualifierLetter(a) || hasQualifierLetter(b))))
 	vv.Assert(congOK(va.Compare(vb), vr.Contains(va), vr.Contains(vb)), "C20: two versions that compare equal are not both in / both out of the range")
 }
 
